@@ -219,6 +219,10 @@ func pureFn(f *ssa.Function, depth int, stack map[*ssa.Function]bool) bool {
 				if _, isBuiltin := ci.Common().Value.(*ssa.Builtin); isBuiltin {
 					continue
 				}
+				// sdk.OneDec, sdk.NewDecFromInt ...: package-level function variables of the SDK
+				if n := calleeFullName(ci.Common()); n != "" && !strings.Contains(n, "comdex-official/comdex") {
+					continue
+				}
 				return false
 			}
 			if isComdexFn(t) && !pureFn(t, depth+1, stack) {
